@@ -61,6 +61,10 @@ class Raised(RaisedInModel):
         self.name, self.node, self.msg = name, node, msg
 
 
+NDARRAY_ATTRS = frozenset("dtype astype shape ndim size T copy flatten ravel reshape tolist item nbytes itemsize flags strides real imag min max sum mean std var any all "
+                          "argmin argmax argsort sort cumsum cumprod prod clip round squeeze transpose swapaxes take repeat fill view tobytes nonzero dot conj conjugate base data".split())
+
+
 class WeakRef(Model):
     """weakref.ref(obj): calling it gives the object (the fold keeps every object alive); copy and deepcopy treat it as ATOMIC, as the
     copy module does: a deep copy of the holder still refers to the ORIGINAL referent"""
@@ -227,6 +231,21 @@ class ModelEval(Evaluator):
             try:
                 return getattr(base, a)
             except AttributeError:
+                if "ndarray" in getattr(base, "kinds", ()) and a in NDARRAY_ATTRS:
+                    # a real ndarray HAS this attribute: its absence is a gap of the token model, not an AttributeError of the program
+                    if a == "dtype":
+                        return "float64"
+                    if a == "astype":
+                        # same dtype and copy=False: the array itself; anything else allocates
+                        def astype(dtype, *args, **kw):
+                            same = getattr(dtype, "name", dtype) in ("float64", "float") or dtype is float or (isinstance(dtype, Marker) and dtype.data and getattr(dtype.data[0], "__name__", dtype.data[0]) in ("float", "float64", "numpy.float64"))
+                            if same and kw.get("copy") is False:
+                                return base
+                            if same and hasattr(base, "copy"):
+                                return base.copy()
+                            raise Unsupported("the model %s of an ndarray does not provide a cast to %r" % (type(base).__name__, dtype))
+                        return astype
+                    raise Unsupported("the model %s of an ndarray does not provide .%s" % (type(base).__name__, a))
                 raise Raised("AttributeError", node, "%s has no attribute %s" % (type(base).__name__, a))
         if isinstance(base, (dict, list, tuple, str, set, frozenset)):
             if a.startswith("__") and a not in ("__len__", "__iter__", "__getitem__", "__setitem__", "__delitem__", "__contains__"):
